@@ -408,5 +408,28 @@ example :
     (fun _ => ⟨by decide, fun _ => by decide⟩) ⟨2, 5⟩).1
   exact ⟨h1.trans (by decide), h2.trans (by decide)⟩
 
-end Swat4.C15
+/-- a registry with one server whose query port is known -/
+def refreshState : AbsState :=
+  { servers := (∅ : ExtTreeMap Nat SRow).insert 5 ⟨{ addr := ⟨0, 5⟩, queryPort := 6, status := Status.port, info := [], details := ⟨[], [], []⟩, refreshedAt := none, version := 1 }, 0⟩ }
 
+theorem refreshState_keyed : Keyed refreshState := by
+  intro k row h
+  simp only [refreshState] at h
+  rw [ExtTreeMap.getElem?_insert] at h
+  split at h
+  · rename_i hk
+    simp only [Option.some.injEq] at h
+    subst h
+    simpa [compare_eq_iff_eq, Addr.key] using hk
+  · simp at h
+
+/-- non-vacuity of `refresh_one_per_server`: one details probe for `0:5`, none for `0:6` -/
+example :
+    let r := (refresh 4 (100 + 10)).run refreshState 100
+    ((added refreshState r.1).filter fun q => decide (q.probe.addr = ⟨0, 5⟩)).length = 1 ∧
+    ((added refreshState r.1).filter fun q => decide (q.probe.addr = ⟨0, 6⟩)).length = 0 := by
+  intro r
+  exact ⟨(refresh_one_per_server refreshState refreshState_keyed 100 10 4 ⟨0, 5⟩).1.trans (by decide),
+    (refresh_one_per_server refreshState refreshState_keyed 100 10 4 ⟨0, 6⟩).1.trans (by decide)⟩
+
+end Swat4.C15
